@@ -68,7 +68,7 @@ Clause(name, ok, tag, k) == ok \/ PrintT(<<"VIOL", name, k, tag>>)
 \* ---------------------------------------------------------------- ghosts
 G0 == [tr |-> -1, brought |-> 0, taken |-> 0, banks |-> <<>>, bankIds |-> {}, lastGc |-> 0, gids |-> {}, handLive |-> FALSE,
        handIds |-> <<>>, openBank |-> <<>>, openBlind |-> <<>>, openLabels |-> <<>>, lastParts |-> {}, afterBank |-> <<>>, afterIds |-> {},
-       missed |-> <<>>, missedIds |-> {}, ext |-> FALSE, extSetup |-> FALSE, openWin |-> {}, botCalls |-> {}, closedBetween |-> FALSE, lastStatus |-> "none",
+       missed |-> <<>>, missedIds |-> {}, ext |-> FALSE, extSetup |-> FALSE, openWin |-> {}, botCalls |-> {}, leavePending |-> {}, closedBetween |-> FALSE, lastStatus |-> "none",
        cnt |-> <<>>, cntIds |-> {}, actEvents |-> <<>>, spyCalls |-> <<>>, inGate |-> "", blindSet |-> <<>>, blindSetInGate |-> FALSE,
        leftSince |-> {}, faults |-> 0, lastUpd |-> 0, kfMidLeave |-> FALSE,
        withholdSt |-> <<>>, settledSt |-> <<>>, openSt |-> <<>>, callQ |-> <<>>, pubH |-> <<>>, nospy |-> FALSE, ownTid |-> "", engineHand |-> <<>>, engineStatus |-> "none", lastGcSeen |-> 0, enginePlayers |-> 0, autoFails |-> 0, errEvents |-> 0, afterFire |-> FALSE, fireSt |-> <<>>]
@@ -87,6 +87,9 @@ Upd(gg, k) ==
       g1 == \* ---- chips brought in / taken out (C01), from call returns
         IF t.ev = "ret:CreateTable" /\ t.res = "ok" THEN [gg EXCEPT !.brought = JoinChips(t.a.joins), !.ownTid = st.tid]
         ELSE IF t.ev \in {"ret:PlayerReserve", "ret:PlayerRedeemChips"} /\ t.res = "ok" THEN [gg EXCEPT !.brought = @ + t.a.chips]
+        \* (a call that waited for the engine lock carries no pre-state: what the leavers took is not known, the ledger is re-based)
+        ELSE IF t.ev \in {"ret:PlayersLeave", "ret:UpdateTablePlayers"} /\ t.res = "ok" /\ Len(t.pre) # 1
+             THEN [gg EXCEPT !.brought = TotalBank(st) + gg.taken, !.leftSince = @ \cup Range(t.a.ids)]
         ELSE IF t.ev = "ret:PlayersLeave" /\ t.res = "ok" THEN [gg EXCEPT !.taken = @ + LeaversBank(t.pre[1], t.a.ids), !.leftSince = @ \cup Range(t.a.ids)]
         ELSE IF t.ev = "ret:UpdateTablePlayers" /\ t.res = "ok"
              THEN [gg EXCEPT !.taken = @ + LeaversBank(t.pre[1], t.a.ids), !.brought = @ + JoinChips(t.a.joins), !.leftSince = @ \cup Range(t.a.ids)]
@@ -126,6 +129,7 @@ Upd(gg, k) ==
         LET gA == IF IsOpenSnap(t)
                   THEN [g3 EXCEPT !.lastGc = st.gc, !.handLive = TRUE, !.handIds = GpiIds(st), !.openBank = Banks(st),
                                   !.openBlind = st.blind, !.lastParts = PartIds(st), !.openSt = <<st>>, !.cnt = <<>>, !.cntIds = {}, !.leftSince = {}, !.settledSt = <<>>,
+                                  !.kfMidLeave = @ \/ (g3.leavePending \cap Range(GpiIds(st)) # {}),
                                   !.openLabels = [id \in Ids(st) |-> P(st, id).pos], 
                                   !.missed = [id \in Ids(st) |->
                                       IF P(st, id).part \/ ~(P(st, id).in /\ P(st, id).bank > 0) THEN 0
@@ -142,10 +146,11 @@ Upd(gg, k) ==
                   ELSE gA
         IN [gC EXCEPT !.banks = Banks(st), !.bankIds = Ids(st), !.lastStatus = st.status]
       g5 == \* players that left the table lose their waiting counters
-        IF t.ev \in {"ret:PlayersLeave", "ret:UpdateTablePlayers"} /\ t.res = "ok"
-        THEN [g4 EXCEPT !.missedIds = @ \ Range(t.a.ids)]
+        IF t.ev \in {"ret:PlayersLeave", "ret:UpdateTablePlayers"}
+        THEN [g4 EXCEPT !.missedIds = IF t.res = "ok" THEN @ \ Range(t.a.ids) ELSE @, !.leavePending = {}]
         ELSE IF t.ev \in {"call:PlayersLeave", "call:UpdateTablePlayers"}      \* (announced before the call: its events come first)
-        THEN [g4 EXCEPT !.kfMidLeave = @ \/ (g4.handLive /\ \E id \in Range(t.a.ids) : id \in Range(g4.handIds))]
+        THEN [g4 EXCEPT !.kfMidLeave = @ \/ (g4.handLive /\ \E id \in Range(t.a.ids) : id \in Range(g4.handIds)),
+                        !.leavePending = Range(t.a.ids)]      \* (the call may have to wait for the engine lock while a hand opens)
         ELSE g4
       g6 == IF t.ev = "withhold" THEN [g5 EXCEPT !.withholdSt = <<st>>]
             ELSE IF t.ev = "botcall" /\ t.res = "ok" THEN [g5 EXCEPT !.botCalls = @ \cup {<<t.a.id, t.a.note>>}]
